@@ -219,7 +219,7 @@ def jobs(tier):
     for nl, ns in (((49, 5), (72, 24), (30, 0), (49, 49), (72, 50)) if tier == "quick" else
                    ((49, 5), (72, 24), (30, 0), (144, 1), (100, 10), (25, 24), (49, 49), (72, 50), (72, 72), (50, 72), (97, 96))):
         out.append(Job("end-to-end-aborted-send-then-header-reuse", h_e2e_abort_then_reuse, dict(n_long=nl, n_short=ns), cost=30))
-    for n in ((25, 48, 49, 96, 121, 137, 144) if tier == "quick" else range(25, 145)):
+    for n in ((25, 48, 49, 96, 121, 137, 144, 145, 168) if tier == "quick" else range(25, 169)):  # 2..7 fragments
         out.append(Job("in-order-stream-is-delivered", h_inorder, dict(n=n)))
     return out
 
@@ -227,7 +227,7 @@ def jobs(tier):
 META = {
     "bounds": {"quick": "1-2 senders x 2-4 fragments, 3-5 delivery events, every event a symbolic pick from the fragment pool, "
                         "symbolic dequeue points, symbolic origins/ids (may coincide)/types 0..127/contents, 2-byte fragment "
-                        "bodies; the same schedules ([2], [3], [2,2] x 3 events) delivered through a real node's radio and update(); plus real-size in-order streams for messages of 25..144 bytes",
+                        "bodies; the same schedules ([2], [3], [2,2] x 3 events) delivered through a real node's radio and update(); plus real-size in-order streams for messages of 25..168 bytes (2..7 fragments; quick: 9 lengths incl. 145 and 168)",
                "thorough": "up to 3 senders (4 events), up to 7 fragments, up to 6 events for one sender / two 2-fragment senders, 5 otherwise"},
     "outside": ["more than 3 senders / 7 fragments / 6 events", "more than one message per (origin, frame id); two messages of one origin carry different frame ids (each header gets a fresh id)",
                 "original message types above 127 (NETWORK_EXT_DATA 131 is propagated by reference, see structs.py)",
